@@ -410,7 +410,8 @@ def run(ctx):
     ctx.cov['events_by_kind'] = kinds
     ctx.cov['number_tokens_by_class'] = bycls
     ctx.cov['keywords_checked'] = {d: len(tables[d]) - 3 for d in DIALECTS}
-    ctx.cov['exhaustive'] = {'keywords x dialects (token and back, case, listing, bijectivity)': True,
+    ctx.cov['exhaustive'] = False
+    ctx.cov['exhaustive_parts'] = {'keywords x dialects (token and back, case, listing, bijectivity)': True,
                              'statement shapes up to %d token classes' % ctx.pick(5, 6): True, 'operand values / longer lines': False}
     for e in (events[nkw + 5], events[nkw + len(shapes)], events[-1]):
         ctx.sample({'d': e['d'], 'text': repr(e['text']), 't1': bytes(e['t1']).hex(), 'listed': repr(e['listed'])})
